@@ -142,3 +142,13 @@ Theorem C16_an_accepted_class_program_accepts_every_body_in_its_context :
         exists G1, cchecks sg cl n (mkCx (Some (cd_name cd)) false false) TVoid [] body = Some G1)).
 Proof. exact accepted_program_bodies. Qed.
 Print Assumptions C16_an_accepted_class_program_accepts_every_body_in_its_context.
+
+Theorem C16_in_an_accepted_program_the_class_rules_hold_at_every_position_of_every_method :
+  forall p cd md G' e e',
+  ccheck_program p = true -> In cd (p_classes p) -> In md (cd_meths cd) ->
+  let sg := sig_of p in let cl := find_class_t p in let n := List.length (p_classes p) in
+  let cx := mkCx (Some (cd_name cd)) (md_static md) false in
+  inside_list sg cl n cx (md_ret md) (params_env (md_params md)) (md_body md) G' e -> within e' e ->
+  rule_ok sg cl n cx G' e'.
+Proof. exact accepted_program_method_rules. Qed.
+Print Assumptions C16_in_an_accepted_program_the_class_rules_hold_at_every_position_of_every_method.
